@@ -445,22 +445,81 @@ func genTable(cfg Config, emit0 func(string, bool, []string)) {
 				g.nsnap++
 				g.add("next 1 s%d -1", g.nsnap-1)
 				g.add("next 1 s%d -1", g.nsnap-1)
+				// an iterator created in a transaction that is ABORTED is closed while the survivor is the only
+				// registered one: the survivor stays registered
+				g.add("wtxn m")
+				g.add("changes m")
+				g.add("abort")
+				g.add("cclose 3")
+				g.add("wtxn m")
+				g.add("del m %s", hx([]byte("k3")))
+				g.add("commit")
+				g.nsnap++
+				g.add("glen - m")
+				g.add("rtxn")
+				g.nsnap++
+				g.add("next 1 s%d -1", g.nsnap-1)
+				// Close() of an iterator, from another goroutine, BEFORE the transaction that created it (and
+				// wrote to the table before) commits: once both are through nothing is registered for it
+				g.add("wtxn m")
+				g.add("ins m %s 7 0 - - 0 7", hx([]byte("k7")))
+				g.add("changes m")
+				g.add("cclosepark 4")
+				g.add("commit")
+				g.nsnap++
+				g.add("ccloseresume")
 				// one more deletion stays unobserved while the last iterator is closed
 				g.add("wtxn m")
 				g.add("del m %s", hx([]byte("k2")))
 				g.add("commit")
 				g.nsnap++
 				g.add("cclose 1")
+				g.add("gcidle")
+				g.add("glen - m")
 				g.add("rtxn")
 				g.nsnap++
 				g.add("inited s%d m", g.nsnap-1)
 				g.add("gcidle")
 				g.add("inited - m")
 				g.add("wtxn m")
+				g.add("reginit m init1")
+				g.add("reginit m init2")
+				g.add("commit")
+				g.nsnap++
+				g.add("rtxn")
+				g.nsnap++
+				hs := fmt.Sprintf("s%d", g.nsnap-1)
+				g.add("inited %s m", hs)
+				// the most recently registered one is marked done and another is registered, in a transaction
+				// that is aborted / committed; the retained snapshot and the committed state keep their lists
+				g.add("wtxn m")
+				g.add("initdone 2")
+				g.add("reginit m init3")
+				g.add("inited w m")
+				g.add("abort")
+				g.add("inited - m")
+				g.add("inited %s m", hs)
+				g.add("wtxn m")
+				g.add("initdone 2")
+				g.add("commit")
+				g.nsnap++
+				g.add("wtxn m")
+				g.add("reginit m init4")
+				if r.IntN(2) == 0 {
+					g.add("abort")
+				} else {
+					g.add("commit")
+					g.nsnap++
+				}
+				g.add("inited %s m", hs)
+				g.add("inited - m")
+				g.add("wtxn m")
 				g.add("initdone 0")
+				g.add("initdone 1")
 				g.add("commit")
 				g.nsnap++
 				g.add("inited - m")
+				g.add("inited %s m", hs)
 				g.add("glen - m")
 				emit("table iterators-created-and-closed", true, g.ops)
 				continue
@@ -831,6 +890,20 @@ func genTable(cfg Config, emit0 func(string, bool, []string)) {
 			{
 				h := fmt.Sprintf("s%d", g.nsnap-1)
 				g.add("list %s m lpm x0a00/8", h)
+				// a fifth object whose primary key sorts INSIDE the bucket (the bucket's slice has room for it)
+				g.add("wtxn m")
+				g.add("ins m %s 49 0 - x0a00/8 0 %d", hx([]byte("l25")), ord)
+				ord++
+				g.add("list %s m lpm x0a00/8", h)
+				g.add("prefix %s m lpm x0000/0", h)
+				if r.IntN(2) == 0 {
+					g.add("abort")
+				} else {
+					g.add("commit")
+					g.nsnap++
+				}
+				g.add("list %s m lpm x0a00/8", h)
+				g.add("list - m lpm x0a00/8")
 				g.add("wtxn m")
 				g.add("del m %s", hx([]byte{'l', byte('2' + r.IntN(2))}))
 				g.add("list %s m lpm x0a00/8", h)
@@ -900,6 +973,61 @@ func genTable(cfg Config, emit0 func(string, bool, []string)) {
 				g.add("rev s%d m", g.nsnap-1)
 				g.add("get s%d m id %s", g.nsnap-1, hx([]byte{'e', byte('0' + k)}))
 			}
+			// primary keys nested 36 levels deep (each a prefix of the next): deleting the deepest ones walks a
+			// path longer than the preallocated 32 entries
+			g.add("wtxn m")
+			for i := 1; i <= 36; i++ {
+				g.add("ins m %s %d 0 - - 0 %d", hx([]byte(strings.Repeat("n", i))), i, ord)
+				ord++
+			}
+			g.add("commit")
+			g.nsnap++
+			g.add("rtxn")
+			g.nsnap++
+			{
+				h := fmt.Sprintf("s%d", g.nsnap-1)
+				g.add("wtxn m")
+				for _, d := range []int{36, 34, 33, 20} {
+					g.add("del m %s", hx([]byte(strings.Repeat("n", d))))
+					g.add("get w m id %s", hx([]byte(strings.Repeat("n", d))))
+				}
+				g.add("num w m")
+				if r.IntN(3) == 0 {
+					g.add("abort")
+				} else {
+					g.add("commit")
+					g.nsnap++
+				}
+				g.add("rtxn")
+				g.nsnap++
+				g.add("prefix s%d m id %s", g.nsnap-1, hx([]byte(strings.Repeat("n", 30))))
+				g.add("get %s m id %s", h, hx([]byte(strings.Repeat("n", 36))))
+				g.add("wtxn m")
+				g.add("delall m")
+				g.add("commit")
+				g.nsnap++
+			}
+			// forty nested prefixes of up to 40 bits in the non-unique prefix index (each one bit longer,
+			// diverging from the all-zero address), lower bounds from the all-zero address
+			g.add("wtxn m")
+			for k := 0; k < 40; k++ {
+				d := make([]byte, 8)
+				d[k/8] = 0x80 >> uint(k%8)
+				g.add("ins m %s %d 0 - x%s/%d 0 %d", hx([]byte(fmt.Sprintf("z%02d", k))), k, hex.EncodeToString(d), k+1, ord)
+				ord++
+			}
+			g.add("commit")
+			g.nsnap++
+			g.add("lb - m lpm x0000000000000000/64")
+			g.add("lb - m lpm x0000000000000000/0")
+			g.add("prefix - m lpm x0000000000000000/0")
+			g.add("wtxn m")
+			g.add("lb w m lpm x0000000000000000/64")
+			g.add("del m %s", hx([]byte("z39")))
+			g.add("lb w m lpm x0000000000000000/64")
+			g.add("delall m")
+			g.add("commit")
+			g.nsnap++
 			// every write operation, with every kind of guard, on a table the transaction does NOT hold
 			// (existing and missing objects): refused as such, nothing changes
 			g.add("wtxn a")
@@ -1394,6 +1522,7 @@ type tableExec struct {
 	closerDone    chan struct{}
 	closerIter    int
 	closeRaced    bool // a Close() has overlapped a transaction that registered another iterator
+	closerEarly   bool // the parked Close() returned before it reached the table lock
 	closerParked  chan struct{}
 	closerRelease chan struct{}
 	gcDead        bool
@@ -1667,11 +1796,15 @@ func (e *tableExec) specQuery(rt *refTable, kind, idx, key string, plen int) ([]
 			}
 		}
 		qb, qd := maskPfx(tPfx{unhx(key), plen})
+		mb := max(2, len(qd)) // key width in bytes (most cases use 2-byte keys, some 8-byte ones)
+		for _, en := range entries {
+			mb = max(mb, len(en.data))
+		}
 		less := func(a, b specKeyed) bool {
-			if x := lpmLess(lpmEnt{data: a.data, plen: a.plen}, lpmEnt{data: b.data, plen: b.plen}, 2); x {
+			if x := lpmLess(lpmEnt{data: a.data, plen: a.plen}, lpmEnt{data: b.data, plen: b.plen}, mb); x {
 				return true
 			}
-			if lpmLess(lpmEnt{data: b.data, plen: b.plen}, lpmEnt{data: a.data, plen: a.plen}, 2) {
+			if lpmLess(lpmEnt{data: b.data, plen: b.plen}, lpmEnt{data: a.data, plen: a.plen}, mb) {
 				return false
 			}
 			return a.o.o.ID < b.o.o.ID
@@ -1713,7 +1846,7 @@ func (e *tableExec) specQuery(rt *refTable, kind, idx, key string, plen int) ([]
 		case "lb":
 			q := lpmEnt{data: qd, plen: plen}
 			for _, en := range entries {
-				if !lpmLess(lpmEnt{data: en.data, plen: en.plen}, q, 2) {
+				if !lpmLess(lpmEnt{data: en.data, plen: en.plen}, q, mb) {
 					out = append(out, en.o)
 				}
 			}
@@ -2364,6 +2497,9 @@ func (e *tableExec) do(o *Out, f []string) string {
 		}()
 		select {
 		case <-e.closerParked:
+		case <-done:
+			// Close() returned without waiting for the transaction that holds the table
+			e.closerEarly = true
 		case <-time.After(3 * time.Second):
 			return "timeout"
 		}
@@ -2373,7 +2509,10 @@ func (e *tableExec) do(o *Out, f []string) string {
 		if e.wtxn != nil || e.closerDone == nil {
 			return "bad-op"
 		}
-		e.closerRelease <- struct{}{}
+		if !e.closerEarly {
+			e.closerRelease <- struct{}{}
+		}
+		e.closerEarly = false
 		select {
 		case <-e.closerDone:
 		case <-time.After(3 * time.Second):
